@@ -45,9 +45,20 @@ func NodeID() *rapid.Generator[string] {
 	})
 }
 
+// UUIDSpellings are texts naming the same two UUIDs in the spellings a lenient UUID parser
+// accepts (blank nodes made by node.NewBlankNode carry such an id under type /_).
+var UUIDSpellings = []string{
+	"6ba7b810-9dad-11d1-80b4-00c04fd430c8", "6BA7B810-9DAD-11D1-80B4-00C04FD430C8", "urn:uuid:6ba7b810-9dad-11d1-80b4-00c04fd430c8",
+	"{6ba7b810-9dad-11d1-80b4-00c04fd430c8}", "6ba7b8109dad11d180b400c04fd430c8", "6ba7b810-9dad-11d1-80b4-00c04fd430c9", "6BA7B810-9dad-11d1-80b4-00c04fd430c9",
+}
+
 // Node draws a node spec.
 func Node() *rapid.Generator[model.NodeSpec] {
 	return rapid.Custom(func(t *rapid.T) model.NodeSpec {
+		if rapid.IntRange(0, 11).Draw(t, "blank-uuid") == 0 {
+			// a blank node whose id is UUID text
+			return model.NodeSpec{Type: rapid.SampledFrom([]string{"/_", "/_", "/u"}).Draw(t, "btype"), ID: rapid.SampledFrom(UUIDSpellings).Draw(t, "bid")}
+		}
 		return model.NodeSpec{Type: NodeType().Draw(t, "type"), ID: NodeID().Draw(t, "id")}
 	})
 }
